@@ -519,3 +519,102 @@ pub fn replay_session(run: &Run, case: &J) {
         }
     }
 }
+
+// ------------------------------------------------------------------------------------------------ C11 inside the search
+
+/// The search must TREAT a position as drawn when the game history says so, also when its tables hold
+/// results from a time when it was not: if a root move leads to a position that repeats an earlier one
+/// (or reaches the fifty-move limit with a legal reply), a draw is available and every reported score
+/// is >= 0. Roots are positions in which the side to move is clearly worse (so that the plain score is
+/// negative: the oracle is not vacuous); the tables are pre-filled by a search without the history.
+pub fn c11_search(run: &Run) -> (u64, u64) {
+    let quick = run.quick();
+    let stats = Stats::new();
+    let depth: u8 = if quick { 5 } else { 7 };
+    let roots = [
+        "q4rk1/3p2pp/8/8/8/8/4Q1PP/7K w - - 0 1",
+        "6k1/5ppp/8/8/8/8/r4PPP/1R4K1 b - - 0 1",
+        "4k3/8/8/8/8/2q5/8/R3K3 w - - 0 1",
+        "8/8/8/8/3k4/8/1r6/R3K3 b - - 0 1",
+        "r3k3/8/8/8/8/8/5Q2/4K3 b - - 0 1",
+        "2r3k1/5ppp/8/8/8/8/5PPP/1Q4K1 b - - 0 1",
+        "4k3/8/8/2n5/8/8/3R4/4K3 b - - 0 1",
+        "4k3/8/8/8/8/8/n7/R3K3 b - - 0 1",
+    ];
+    let cases = AtomicU64::new(0);
+    let negative_baselines = AtomicU64::new(0);
+    let items: Vec<&str> = roots.to_vec();
+    par_for(items.len(), |ri| {
+        let fen = items[ri];
+        let root = Pos::from_fen(fen).unwrap();
+        if !root.is_legal_position() {
+            run.machinery_error(format!("C11 search root {fen} is not legal"));
+            return;
+        }
+        let quiet = |p: &Pos, m: &rc::RMove| !m.capture && !m.castle && m.promo.is_none() && p.board[m.from as usize].map(|x| x.1) != Some(Kind::P);
+        // (a) repetition: histories m1 r1 m1^-1 r1^-1 that return to the root
+        let mut histories: Vec<Vec<String>> = vec![];
+        for m1 in root.legal_moves().iter().filter(|m| quiet(&root, m)) {
+            let p1 = root.apply(m1);
+            for r1 in p1.legal_moves().iter().filter(|m| quiet(&p1, m)) {
+                let p2 = p1.apply(r1);
+                let Some(b1) = p2.legal_moves().into_iter().find(|m| m.from == m1.to && m.to == m1.from && quiet(&p2, m)) else { continue };
+                let p3 = p2.apply(&b1);
+                let Some(b2) = p3.legal_moves().into_iter().find(|m| m.from == r1.to && m.to == r1.from && quiet(&p3, m)) else { continue };
+                let p4 = p3.apply(&b2);
+                if p4.board == root.board && p4.castle == root.castle {
+                    histories.push(vec![m1.uci(), r1.uci(), b1.uci(), b2.uci()]);
+                }
+                if histories.len() >= if quick { 6 } else { 40 } {
+                    break;
+                }
+            }
+            if histories.len() >= if quick { 6 } else { 40 } {
+                break;
+            }
+        }
+        let judge = |sess: &Session, what: &str| {
+            let tr = exec_session(run, Focus::C04, sess, &stats, DEFAULT_NODE_BUDGET);
+            // baseline = first search, judged = the rest
+            if let Some((_, infos)) = tr.first() {
+                if infos.last().map_or(false, |i| !i.score.0 && i.score.1 < -50 || i.score.0 && i.score.1 < 0) {
+                    negative_baselines.fetch_add(1, Ordering::Relaxed);
+                }
+            }
+            for (si, (_, infos)) in tr.iter().enumerate().skip(1) {
+                for inf in infos {
+                    let ok = if inf.score.0 { inf.score.1 > 0 } else { inf.score.1 >= 0 };
+                    if !ok {
+                        run.violation("search-ignores-draw", format!("search-ignores-draw|{}", sess.key(si)), sess.json(si), format!("{what}: a move into a drawn position is available, yet depth {} reports {} {} (line {})", inf.depth, if inf.score.0 { "mate" } else { "cp" }, inf.score.1, inf.pv.join(" ")));
+                        return;
+                    }
+                }
+            }
+        };
+        for h in &histories {
+            cases.fetch_add(1, Ordering::Relaxed);
+            let with_history = GameSpec { fen: fen.to_string(), moves: h.clone() };
+            let mut steps = vec![Step::Search(GameSpec::fen(fen), Spec::depth(depth + 1), Env::Default)];
+            for d in 1..=depth {
+                steps.push(Step::Search(with_history.clone(), Spec::depth(d), Env::Default));
+            }
+            judge(&Session { hash_mb: 1, start_gen: 0, steps }, &format!("{fen} after {} (the position repeats; {} again repeats a third time)", h.join(" "), h[0]));
+        }
+        // (b) fifty-move: the same position with the clock at 99: any quiet move that does not mate reaches 100
+        let mut p99 = root.clone();
+        p99.halfmove = 99;
+        if p99.legal_moves().iter().any(|m| quiet(&p99, m) && !p99.apply(m).legal_moves().is_empty()) {
+            cases.fetch_add(1, Ordering::Relaxed);
+            let mut steps = vec![Step::Search(GameSpec::fen(fen), Spec::depth(depth + 1), Env::Default)];
+            for d in 1..=depth {
+                steps.push(Step::Search(GameSpec::fen(&p99.to_fen()), Spec::depth(d), Env::Default));
+            }
+            judge(&Session { hash_mb: 1, start_gen: 0, steps }, &format!("{} (halfmove clock 99: a quiet move reaches the fifty-move limit)", p99.to_fen()));
+        }
+    });
+    let c = cases.load(Ordering::Relaxed);
+    run.count("search_draw_cases", c);
+    run.count("search_draw_negative_baselines", negative_baselines.load(Ordering::Relaxed));
+    run.family("SEARCH-TREATS-DRAWS", &format!("{} losing roots; per root up to {} histories m1 r1 m1^-1 r1^-1 returning to the root (then m1 repeats) and the root with the clock at 99; tables pre-filled by a depth-{} search without history; searches at depth 1..={depth} must report a score >= 0", roots.len(), if quick { 6 } else { 40 }, depth + 1), c, stats.searches.load(Ordering::Relaxed), true, "sound because a root move into a drawn position scores exactly 0");
+    (c, stats.searches.load(Ordering::Relaxed))
+}
